@@ -12,25 +12,25 @@ open Cctp Cctp.Spec Gen
 
 /-- documented store-key classes per entry point, by the names of the key constants in types/keys.go. -/
 def documentedClasses : String → List String
-  | "msg:ReceiveMessage" => ["UsedNonceKeyPrefix"]
-  | "msg:SendMessage" | "msg:SendMessageWithCaller" | "msg:DepositForBurn" | "msg:DepositForBurnWithCaller" => ["NextAvailableNonceKey"]
+  | "msg:ReceiveMessage" => ["usedNonceKeyPrefix"]
+  | "msg:SendMessage" | "msg:SendMessageWithCaller" | "msg:DepositForBurn" | "msg:DepositForBurnWithCaller" => ["nextAvailableNonceKey"]
   | "msg:ReplaceMessage" | "msg:ReplaceDepositForBurn" => []
-  | "msg:AcceptOwner" => ["OwnerKey", "PendingOwnerKey"]
-  | "msg:UpdateOwner" => ["PendingOwnerKey"]
-  | "msg:UpdateAttesterManager" => ["AttesterManagerKey"]
-  | "msg:UpdatePauser" => ["PauserKey"]
-  | "msg:UpdateTokenController" => ["TokenControllerKey"]
-  | "msg:UpdateMaxMessageBodySize" => ["MaxMessageBodySizeKey"]
-  | "msg:AddRemoteTokenMessenger" | "msg:RemoveRemoteTokenMessenger" => ["RemoteTokenMessengerKeyPrefix"]
-  | "msg:EnableAttester" | "msg:DisableAttester" => ["AttesterKeyPrefix"]
-  | "msg:UpdateSignatureThreshold" => ["SignatureThresholdKey"]
-  | "msg:PauseBurningAndMinting" | "msg:UnpauseBurningAndMinting" => ["BurningAndMintingPausedKey"]
-  | "msg:PauseSendingAndReceivingMessages" | "msg:UnpauseSendingAndReceivingMessages" => ["SendingAndReceivingMessagesPausedKey"]
-  | "msg:LinkTokenPair" | "msg:UnlinkTokenPair" => ["TokenPairKeyPrefix"]
-  | "msg:SetMaxBurnAmountPerMessage" => ["PerMessageBurnLimitKeyPrefix"]
-  | "func:InitGenesis" => ["AttesterKeyPrefix", "AttesterManagerKey", "BurningAndMintingPausedKey", "MaxMessageBodySizeKey",
-      "NextAvailableNonceKey", "OwnerKey", "PauserKey", "PerMessageBurnLimitKeyPrefix", "RemoteTokenMessengerKeyPrefix",
-      "SendingAndReceivingMessagesPausedKey", "SignatureThresholdKey", "TokenControllerKey", "TokenPairKeyPrefix", "UsedNonceKeyPrefix"]
+  | "msg:AcceptOwner" => ["ownerKey", "pendingOwnerKey"]
+  | "msg:UpdateOwner" => ["pendingOwnerKey"]
+  | "msg:UpdateAttesterManager" => ["attesterManagerKey"]
+  | "msg:UpdatePauser" => ["pauserKey"]
+  | "msg:UpdateTokenController" => ["tokenControllerKey"]
+  | "msg:UpdateMaxMessageBodySize" => ["maxMessageBodySizeKey"]
+  | "msg:AddRemoteTokenMessenger" | "msg:RemoveRemoteTokenMessenger" => ["remoteTokenMessengerKeyPrefix"]
+  | "msg:EnableAttester" | "msg:DisableAttester" => ["attesterKeyPrefix"]
+  | "msg:UpdateSignatureThreshold" => ["signatureThresholdKey"]
+  | "msg:PauseBurningAndMinting" | "msg:UnpauseBurningAndMinting" => ["burningAndMintingPausedKey"]
+  | "msg:PauseSendingAndReceivingMessages" | "msg:UnpauseSendingAndReceivingMessages" => ["sendingAndReceivingMessagesPausedKey"]
+  | "msg:LinkTokenPair" | "msg:UnlinkTokenPair" => ["tokenPairKeyPrefix"]
+  | "msg:SetMaxBurnAmountPerMessage" => ["perMessageBurnLimitKeyPrefix"]
+  | "func:InitGenesis" => ["attesterKeyPrefix", "attesterManagerKey", "burningAndMintingPausedKey", "maxMessageBodySizeKey",
+      "nextAvailableNonceKey", "ownerKey", "pauserKey", "perMessageBurnLimitKeyPrefix", "remoteTokenMessengerKeyPrefix",
+      "sendingAndReceivingMessagesPausedKey", "signatureThresholdKey", "tokenControllerKey", "tokenPairKeyPrefix", "usedNonceKeyPrefix"]
   | _ => []   -- queries, ExportGenesis and anything new: nothing
 
 /-- **For every code path**: the store-key classes that any function reachable from a handler (in the static
